@@ -30,6 +30,11 @@ Definition set_invite_room_state (v : json) (ev : json) : json :=
              end in
   jset (bs "unsigned") (jset (bs "invite_room_state") v uns) ev.
 
+(* the state GenerateStrippedState asks for (each with the empty state key) *)
+Definition stripped_state_wanted : list bytes :=
+  [bs "m.room.name"; bs "m.room.canonical_alias"; m_room_join_rules; bs "m.room.avatar";
+   bs "m.room.encryption"; m_room_create].
+
 Section Invite.
   Variable sign : bytes -> bytes -> json -> json.
 
@@ -65,7 +70,7 @@ Section Invite.
         (* the stripped state: the caller's, else generated from the state querier *)
         match iv_given_state i with
         | [] =>
-            let log2 := log1 ++ [entry [bs "G"; iv_req_room i]] in
+            let log2 := log1 ++ [entry (bs "G" :: iv_req_room i :: stripped_state_wanted)] in
             match iv_generated_state i with
             | QErr => efail OInternal log2
             | QNil => invite_stage i signed known [] log2
